@@ -1026,7 +1026,15 @@ PARITY_VALUES = ["RETURN 1 AS x", "RETURN 1.0 AS x", "RETURN -0.0 AS x", "RETURN
                  "MATCH (h:Hub) RETURN h AS x", "MATCH (h:Hub)-[r:L]->(s) RETURN r AS x, s AS y", "MATCH (h:Hub) RETURN h.p AS x, labels(h) AS l, properties(h) AS m",
                  "MATCH (n) RETURN id(n) AS i, n.p AS p ORDER BY i", "MATCH p = (h:Hub)-[:L]->(s) RETURN length(p) AS n",
                  "UNWIND [1, 2, 3] AS x RETURN x, x * 1.5 AS y, toString(x) AS s", "RETURN toBoolean(1) AS x", "RETURN 1 +", "MATCH (n) RETURN n.p + 'a' AS x",
-                 "RETURN $a AS a, $b AS b, $c AS c"]
+                 "RETURN $a AS a, $b AS b, $c AS c",
+                 # entities nested inside collections and paths
+                 "MATCH (n:Spoke) WITH n ORDER BY n.p RETURN collect(n) AS x",
+                 "MATCH (h:Hub)-[r:L]->(s) WITH h, r, s ORDER BY s.p RETURN {from: h, rel: r, to: s} AS x",
+                 "MATCH p = (h:Hub)-[:L]->(s) RETURN nodes(p) AS ns, relationships(p) AS rs",
+                 "MATCH p = (h:Hub)-[:L]->(s) RETURN p AS x",
+                 "MATCH (h:Hub)-[r:L]->(s) RETURN [h, [r, {k: s}]] AS x",
+                 "MATCH (h:Hub)-[r:L]->(s) RETURN collect(r) AS rs, collect({n: s, l: [s]}) AS ms",
+                 "MATCH (h:Hub) OPTIONAL MATCH (h)-[r:Nope]->(s) RETURN [h, r, s] AS x"]
 
 
 def parity_sessions(tier, seed):
